@@ -337,6 +337,12 @@ Definition clean_name (n : bytes) : Prop := lower n <> PROXY_AUTHORIZATION /\ lo
 Definition clean_pkt (b : bytes) : Prop :=
   exists line hs body, b = build_http_pkt line hs body false /\ Forall (fun kv => clean_name (fst kv)) hs.
 
+Lemma header_key_lower hs n : lower (header_key hs n) = lower n.
+Proof.
+  induction hs as [|[k v] t IH]; [reflexivity|]. cbn [header_key].
+  destruct (bytes_eqb (lower k) (lower n)) eqn:E; [now apply bytes_eqb_eq in E|exact IH].
+Qed.
+
 Lemma build_clean disable r b :
   wf_headers (rq_headers r) ->
   ~ In PROXY_AUTHORIZATION (dict_keys (rq_headers r)) -> ~ In PROXY_CONNECTION (dict_keys (rq_headers r)) ->
@@ -353,6 +359,6 @@ Proof.
   eexists _, _, _. split; [reflexivity|].
   destruct (nonempty (rq_body r)); [|exact H0]. destruct (has_transfer_encoding hs0); [exact H0|].
   apply Forall_forall. intros e He. apply dict_set_in_inv in He as [->|He].
-  - cbn [fst]. split; vm_compute; discriminate.
+  - cbn [fst]. split; rewrite header_key_lower; vm_compute; discriminate.
   - rewrite Forall_forall in H0. now apply H0.
 Qed.
